@@ -9,5 +9,6 @@ CONSTANTS
   OpsAtEnd = 2
   Interleave = TRUE
   BadArgs = FALSE
+  Iters = FALSE
 INVARIANTS HistoryIndependent NoDuplicateSiblings
 CHECK_DEADLOCK FALSE
